@@ -15,9 +15,17 @@ package main
 //   chat.json.dec <hextext> <J|!>  => ok <M> direct=<cls> | err direct=<cls> | panic
 //   chat.jsonmsg <M>               => ok bytes=<hex> text=<hex> back=<M|err> n=<k> | err | panic
 //   chat.jsonmsg.dec <hex>         => ok <M> n=<k> | err n=<k> | panic
+//   chat.jsonmsg.rd <hextext> <J|!> => ok <M> n=<k> direct=<cls> | err n=<k> direct=<cls> | panic
+//                                     (the text framed as a protocol String, read by JsonMessage.ReadFrom; direct = Message.UnmarshalJSON)
 //   chat.nbt <M>                   => ok bytes=<hex> back=<M> n=<k> | ok bytes=<hex> back=err n=<k> | err | panic
 //   chat.nbt.dec <hex>             => ok <M> n=<k> | err n=<k> | panic | hang
 //   chat.render <lang> <M>         => ok plain=<hex> ansi=<hex> | panic | hang        (lang: hexkey:hexfmt,… or -)
+//   chat.build <lang> <M>          => ok tok=<M> deep=<b> json=<b> nbt=<b> plain=<b> ansi=<b> | panic | hang
+//                                     (the component built through Text/TranslateMsg/SetColor/Append/OpenURL/ShowText…: its
+//                                      token; DeepEqual with the literal; same JSON bytes, NBT bytes, ClearString, String)
+//   chat.lang <step;step;…> <M;M;…> => ok r=<plainhex>/<ansihex>;… en=<same|changed> | panic | hang
+//                                     (step: a table as in chat.render, or E<table> = en_us.Map itself, <table> listing
+//                                      its entries for the keys in use; en: en_us.Map compared with a copy taken at start)
 //   chat.type <id> <M> <M|->       => ok bytes=<hex> sb=<hex> tb=<hex> back=<id>,<M>,<M|-> n=<k> | …
 //   chat.type.reuse <id> <M> <M|-> => same, but decoded into a Type that held a target before
 //   chat.type.dec <hex>            => ok <id>,<M>,<M|-> n=<k> | err n=<k> | panic | hang
@@ -28,6 +36,7 @@ import (
 	"encoding/hex"
 	"encoding/json"
 	"fmt"
+	"reflect"
 	"sort"
 	"strconv"
 	"strings"
@@ -35,6 +44,7 @@ import (
 
 	"github.com/Tnze/go-mc/chat"
 	en_us "github.com/Tnze/go-mc/data/lang/en-us"
+	pk "github.com/Tnze/go-mc/net/packet"
 )
 
 func init() {
@@ -308,6 +318,120 @@ func c17PrintMsg(m chat.Message) string {
 	return sb.String()
 }
 
+// ---------- the public constructors ----------
+
+func c17AllMsgArgs(with chat.TranslateArgs) bool {
+	for _, a := range with {
+		if _, ok := a.(chat.Message); !ok {
+			return false
+		}
+	}
+	return len(with) > 0
+}
+
+// c17Build constructs the component lit through the package's public builders wherever one exists (Text,
+// TranslateMsg, SetColor, Append, the ClickEvent and HoverEvent constructors), nested components included;
+// fields without a builder are assigned.
+func c17Build(lit *chat.Message) chat.Message {
+	var m chat.Message
+	if lit.Translate != "" && c17AllMsgArgs(lit.With) {
+		var args []chat.Message
+		for _, a := range lit.With {
+			x := a.(chat.Message)
+			args = append(args, c17Build(&x))
+		}
+		m = chat.TranslateMsg(lit.Translate, args...)
+		m.Text = lit.Text
+	} else {
+		m = chat.Text(lit.Text)
+		m.Translate = lit.Translate
+		m.With = lit.With
+	}
+	m.Bold, m.Italic, m.UnderLined, m.StrikeThrough, m.Obfuscated = lit.Bold, lit.Italic, lit.UnderLined, lit.StrikeThrough, lit.Obfuscated
+	m.Font, m.Insertion = lit.Font, lit.Insertion
+	if lit.Color != "" {
+		m = m.SetColor(lit.Color)
+	}
+	if ce := lit.ClickEvent; ce != nil {
+		switch ce.Action {
+		case "open_url":
+			m.ClickEvent = chat.OpenURL(ce.Value)
+		case "run_command":
+			m.ClickEvent = chat.RunCommand(ce.Value)
+		case "suggest_command":
+			m.ClickEvent = chat.SuggestCommand(ce.Value)
+		case "copy_to_clipboard":
+			m.ClickEvent = chat.CopyToClipboard(ce.Value)
+		default:
+			if n, err := strconv.Atoi(ce.Value); ce.Action == "change_page" && err == nil && strconv.Itoa(n) == ce.Value {
+				m.ClickEvent = chat.ChangePage(n)
+			} else {
+				c := *ce
+				m.ClickEvent = &c
+			}
+		}
+	}
+	if he := lit.HoverEvent; he != nil {
+		textOnly := reflect.DeepEqual(he.Value, chat.Message{Text: he.Value.Text})
+		switch {
+		case he.Contents == nil && he.Action == "show_text":
+			m.HoverEvent = chat.ShowText(c17Build(&he.Value))
+		case he.Contents == nil && he.Action == "show_item" && textOnly:
+			m.HoverEvent = chat.ShowItem(he.Value.Text)
+		case he.Contents == nil && he.Action == "show_entity" && textOnly:
+			m.HoverEvent = chat.ShowEntity(he.Value.Text)
+		default:
+			h := *he
+			h.Value = c17Build(&he.Value)
+			m.HoverEvent = &h
+		}
+	}
+	if len(lit.Extra) > 0 {
+		var xs []chat.Message
+		for i := range lit.Extra {
+			xs = append(xs, c17Build(&lit.Extra[i]))
+		}
+		m = m.Append(xs...)
+	}
+	return m
+}
+
+func c17Bit(b bool) string {
+	if b {
+		return "1"
+	}
+	return "0"
+}
+
+// c17BuildOp: the component built with the constructors must be the literal one, and give the same JSON form,
+// NBT form, plain and ANSI rendering.
+func c17BuildOp(c *Ctx, langs string, ms string) {
+	lit := c17ParseMsg(ms)
+	lang := c17ParseLang(langs)
+	obs := "?"
+	st := guardT(c17Watch, func() {
+		built := c17Build(&lit)
+		j1, e1 := json.Marshal(lit)
+		j2, e2 := json.Marshal(built)
+		var n1, n2 bytes.Buffer
+		_, e3 := lit.WriteTo(&n1)
+		_, e4 := built.WriteTo(&n2)
+		chat.SetLanguage(lang)
+		p1, a1 := lit.ClearString(), lit.String()
+		p2, a2 := built.ClearString(), built.String()
+		obs = "ok tok=" + c17PrintMsg(built) +
+			" deep=" + c17Bit(reflect.DeepEqual(lit, built)) +
+			" json=" + c17Bit((e1 == nil) == (e2 == nil) && bytes.Equal(j1, j2)) +
+			" nbt=" + c17Bit((e3 == nil) == (e4 == nil) && bytes.Equal(n1.Bytes(), n2.Bytes())) +
+			" plain=" + c17Bit(p1 == p2) + " ansi=" + c17Bit(a1 == a2)
+	})
+	chat.SetLanguage(en_us.Map)
+	if st != "" {
+		obs = st
+	}
+	c.Emit("chat.build", []string{langs, ms}, obs)
+}
+
 // ---------- language tables ----------
 
 func c17ParseLang(s string) map[string]string {
@@ -440,6 +564,37 @@ func c17JSONMsgDec(c *Ctx, in []byte) {
 	c.Emit("chat.jsonmsg.dec", []string{hx(in)}, obs)
 }
 
+// c17JSONMsgRd reads a JSON text of the protocol grammar (top-level string, list, object, nested mixes) through the
+// packet-field entry point chat.JsonMessage.ReadFrom — the text is framed as a protocol String first — and
+// compares the component with Message.UnmarshalJSON of the same text.
+func c17JSONMsgRd(c *Ctx, text []byte) {
+	tree := c17Tree(text)
+	obs := "?"
+	st := guardT(c17Watch, func() {
+		var b bytes.Buffer
+		pk.String(text).WriteTo(&b)
+		var m chat.JsonMessage
+		n, err := m.ReadFrom(bytes.NewReader(b.Bytes()))
+		var m2 chat.Message
+		direct := "panic"
+		if p, _ := guard(func() { direct = c17Cls(m2.UnmarshalJSON(text)) }); p {
+			direct = "panic"
+		}
+		if err != nil {
+			obs = fmt.Sprintf("err n=%d direct=%s", n, direct)
+		} else {
+			if direct == "ok" && c17PrintMsg(m2) != c17PrintMsg(chat.Message(m)) {
+				direct = "differs"
+			}
+			obs = fmt.Sprintf("ok %s n=%d direct=%s", c17PrintMsg(chat.Message(m)), n, direct)
+		}
+	})
+	if st != "" {
+		obs = st
+	}
+	c.Emit("chat.jsonmsg.rd", []string{hx(text), tree}, obs)
+}
+
 func c17NBT(c *Ctx, ms string) {
 	m := c17ParseMsg(ms)
 	obs := "?"
@@ -496,6 +651,75 @@ func c17Render(c *Ctx, langs string, ms string) {
 		obs = st
 	}
 	c.Emit("chat.render", []string{langs, ms}, obs)
+}
+
+// c17EnUS is a copy of en_us.Map taken before anything called SetLanguage (package initialisation).
+var c17EnUS = func() map[string]string {
+	out := make(map[string]string, len(en_us.Map))
+	for k, v := range en_us.Map {
+		out[k] = v
+	}
+	return out
+}()
+
+func c17EnUSIntact() bool {
+	if len(en_us.Map) != len(c17EnUS) {
+		return false
+	}
+	for k, v := range c17EnUS {
+		if w, ok := en_us.Map[k]; !ok || w != v {
+			return false
+		}
+	}
+	return true
+}
+
+// c17LangStep turns one step token into the map handed to SetLanguage: "E…" is en_us.Map ITSELF (the rest of the
+// token lists its entries for the keys in use, for the model), anything else a fresh synthetic map.
+func c17LangStep(tok string) map[string]string {
+	if strings.HasPrefix(tok, "E") {
+		return en_us.Map
+	}
+	return c17ParseLang(tok)
+}
+
+// c17EnToken is the step token for en_us.Map: its (original) entries for the given keys.
+func c17EnToken(keys []string) string {
+	sub := map[string]string{}
+	for _, k := range keys {
+		if v, ok := c17EnUS[k]; ok {
+			sub[k] = v
+		}
+	}
+	return "E" + c17PrintLang(sub)
+}
+
+// c17LangHist: a history of SetLanguage calls, then rendering; the default language is restored at the end.
+func c17LangHist(c *Ctx, steps string, mss string) {
+	var ms []chat.Message
+	for _, t := range strings.Split(mss, ";") {
+		ms = append(ms, c17ParseMsg(t))
+	}
+	obs := "?"
+	st := guardT(c17Watch, func() {
+		for _, t := range strings.Split(steps, ";") {
+			chat.SetLanguage(c17LangStep(t))
+		}
+		var parts []string
+		for i := range ms {
+			parts = append(parts, c17hx([]byte(ms[i].ClearString()))+"/"+c17hx([]byte(ms[i].String())))
+		}
+		en := "same"
+		if !c17EnUSIntact() {
+			en = "changed"
+		}
+		obs = "ok r=" + strings.Join(parts, ";") + " en=" + en
+	})
+	chat.SetLanguage(en_us.Map)
+	if st != "" {
+		obs = st
+	}
+	c.Emit("chat.lang", []string{steps, mss}, obs)
 }
 
 func c17PrintType(t *chat.Type) string {
@@ -612,12 +836,18 @@ func replayC17(c *Ctx, op string, a []string) bool {
 		c17JSONMsg(c, a[0])
 	case "chat.jsonmsg.dec":
 		c17JSONMsgDec(c, unhx(a[0]))
+	case "chat.jsonmsg.rd":
+		c17JSONMsgRd(c, unhx(a[0]))
 	case "chat.nbt":
 		c17NBT(c, a[0])
 	case "chat.nbt.dec":
 		c17NBTDec(c, unhx(a[0]))
 	case "chat.render":
 		c17Render(c, a[0], a[1])
+	case "chat.build":
+		c17BuildOp(c, a[0], a[1])
+	case "chat.lang":
+		c17LangHist(c, a[0], a[1])
 	case "chat.type", "chat.type.reuse":
 		c17Type(c, op, a[0], a[1], a[2])
 	case "chat.type.dec":
